@@ -5,7 +5,7 @@ from ..model import AnalysisError
 from ..norm import Normalizer, show_term
 from ..vgraph import FALSE, KEY, NONE, TRUE, Closure, show, strip_keys, walk
 from .stepref import box_case
-from .util import bind_args, fields, live, one
+from .util import bind_args, dict_items, fields, live, one
 
 EXPLANATION = (
     "Accumulator algebra and plumbing. C19.1 LoggingCallbackStepState.next: return' = return*(1-done_prev) + r, length' = "
@@ -164,7 +164,7 @@ step = self.step + 1
             for x in walk(node):
                 if isinstance(x, tuple) and x and x[0] == "call" and x[1] == ("global", "jax.debug.callback"):
                     dbg.append(x)
-        scal = [x for x in dbg if any(isinstance(y, tuple) and y and y[0] == "setitem" for a in x[2] for y in walk(a))]
+        scal = [x for x in dbg if any(dict_items(a) for a in x[2][1:])]
         s.ob("C19.4", con4, len(scal) >= 1, "the scalar log goes through jax.debug.callback", loc4, key="debug-callback", detail=f"{len(dbg)} debug callbacks")
         for x in dbg:
             kw = dict((k, v) for k, v in x[3] if k)
@@ -180,12 +180,7 @@ step = self.step + 1
             s.eq("C19.4", con4, nz4, last, s.ref(b4, "ctx.step_state.step.sum()", {"ctx": ctxp}),
                  "the logged step is the sum of the per-environment step counters", loc4, key="step-sum",
                  necessary_for="records carry the cumulative number of environment steps")
-            items = {}
-            cur = scalars
-            while isinstance(cur, tuple) and cur and cur[0] == "setitem":
-                if cur[2][0] == "const":
-                    items.setdefault(cur[2][1], cur[3])
-                cur = cur[1]
+            items = dict_items(scalars)
             for k_, fld in (("episode/return", "average_return"), ("episode/length", "average_length")):
                 s.eq("C19.4", con4, nz4, items.get(k_, NONE), s.ref(b4, f"ctx.step_state.{fld}.mean()", {"ctx": ctxp}),
                      f"scalar '{k_}' is the mean over environments of {fld}", loc4, key=f"scalar-{fld}",
